@@ -159,6 +159,10 @@ def check_property(pid, tier, cache=True, only_groups=None):
         if g['obligations'] == 0:
             undecided.append((gn, 'vacuity guard: the group generated zero obligations'))
             continue
+        vac = [cls for cls, (tot, live) in g.get('canaries', {}).items() if live == 0]
+        if vac:
+            undecided.append((gn, 'vacuity guard: `False` is provable on every path of %s (contradictory contract?)' % vac))
+            continue
         if not g['failed']:
             continue
         # ---- failed obligations -> counterexample
@@ -278,6 +282,7 @@ def build_evidence(pid, tier, P, gnames, results, timing, wall, violations, unde
         d.update(obligations=r['obligations'], discharged=r['discharged'], solver_jobs=r['jobs'],
                  solver_cpu_s=r['solver_time'], backends=r['backends'], cache_hits=r['cached'],
                  tasks=[dict(task=t['task'], **t['stats']) for t in r['tasks']][:40],
+                 vacuity_canaries={k: dict(paths=v[0], reachable=v[1]) for k, v in r.get('canaries', {}).items()},
                  errors=r['errors'])
         groups.append(d)
         samples.extend(r['samples'][:1])
